@@ -1,0 +1,13 @@
+//go:build verif
+
+package icmp
+
+import "github.com/postalsys/muti-metroo/internal/protocol"
+
+// VerifPerformKeyExchange runs the responder key exchange of HandleICMPOpen
+// on a session without needing an ICMP socket (the sandbox has none).
+// Verification harness only (C03).
+func (h *Handler) VerifPerformKeyExchange(session *Session, open *protocol.ICMPOpen,
+	remoteEphemeralPub [protocol.EphemeralKeySize]byte, conn interface{ Close() error }) ([protocol.EphemeralKeySize]byte, error) {
+	return h.performKeyExchange(session, open, remoteEphemeralPub, conn)
+}
